@@ -332,6 +332,13 @@ func (p *Program) Global(rel, name string) *ssa.Global {
 	return g
 }
 
+func (p *Program) GlobalOpt(rel, name string) *ssa.Global {
+	pk := p.Pkg(rel)
+	sp := p.SSAPkgs[pk.PkgPath]
+	g, _ := sp.Members[name].(*ssa.Global)
+	return g
+}
+
 // Method finds the *types.Func of a method on a named type in any loaded package.
 func (p *Program) ExtMethod(pkgPath, typ, method string) *types.Func {
 	pk := p.AllPkgs[pkgPath]
